@@ -1,4 +1,5 @@
 """C08 - the overlap measure chi2 equals its reference definition for all restraint sets."""
+import copy
 import itertools
 import math
 
@@ -113,8 +114,9 @@ def gen_case(rs, rkind=None):
             + rs.normal(size=(n2, 3)) * 0.05 * scale
     rkind = rkind or RESTR_KINDS[rs.randint(len(RESTR_KINDS))]
     restr = gen_restr(rs, n1, n2, rkind)
-    return add_sequence(rs, {"stream": "generic", "geo": geo, "rkind": rkind, "m1": m1.tolist(), "m2c": m2c.tolist(),
-                             "restr": restr, "m2e": m2e.tolist(), "none_arg": bool(rs.randint(2))})
+    return add_types(rs, add_sequence(rs, {"stream": "generic", "geo": geo, "rkind": rkind, "m1": m1.tolist(),
+                                           "m2c": m2c.tolist(), "restr": restr, "m2e": m2e.tolist(),
+                                           "none_arg": bool(rs.randint(2))}))
 
 
 def gen_dyadic(rs, rkind=None):
@@ -127,9 +129,10 @@ def gen_dyadic(rs, rkind=None):
     def pts(n):
         return rs.randint(-span, span + 1, size=(n, 3)).astype(float) / den
     rkind = rkind or RESTR_KINDS[rs.randint(len(RESTR_KINDS))]
-    return add_sequence(rs, {"stream": "dyadic", "geo": "lattice%d" % span, "rkind": rkind, "m1": pts(n1).tolist(),
-                             "m2c": pts(n2).tolist(), "restr": gen_restr(rs, n1, n2, rkind), "m2e": pts(n2).tolist(),
-                             "none_arg": bool(rs.randint(2))})
+    return add_types(rs, add_sequence(rs, {"stream": "dyadic", "geo": "lattice%d" % span, "rkind": rkind,
+                                           "m1": pts(n1).tolist(), "m2c": pts(n2).tolist(),
+                                           "restr": gen_restr(rs, n1, n2, rkind), "m2e": pts(n2).tolist(),
+                                           "none_arg": bool(rs.randint(2))}))
 
 
 def seq_of(case):
@@ -147,14 +150,31 @@ def add_sequence(rs, case, force=False):
     seq = [np.array(case["m2e"], dtype=float)]
     n_more = int(rs.randint(1, 5))
     kinds = []
+    hows = []
     for t in range(n_more):
-        how = rs.choice(["redraw", "shuffle", "move", "revisit"])
+        how = rs.choice(["redraw", "shuffle", "move", "revisit", "ip_translate", "ip_rotate", "ip_atom", "ip_translate",
+                         "construction"])
         if how == "revisit" and len(seq) < 2:
             how = "shuffle"
-        if how == "move" and dyadic:
-            how = "redraw"
+        if how in ("move", "ip_rotate") and dyadic:
+            how = "redraw" if how == "move" else "ip_atom"
         prev = seq[rs.randint(len(seq))]
-        if how == "redraw":
+        last = seq[-1]
+        if how == "ip_translate":
+            # `pos += shift` on the array object evaluated by the previous call
+            shift = rs.randint(-3, 4, size=3) / 2.0 if dyadic else rs.uniform(-0.5, 0.5, size=3) * ext
+            new = last + shift
+        elif how == "ip_rotate":
+            # `pos[:] = rotated` written back into the same array object
+            new = (last - last.mean(axis=0)) @ random_rotation(rs).T + last.mean(axis=0)
+        elif how == "ip_atom":
+            # a single atom moved in place
+            new = last.copy()
+            new[rs.randint(n2)] += rs.randint(-2, 3, size=3) / 2.0 if dyadic else rs.normal(size=3) * 0.3 * ext
+        elif how == "construction":
+            # the very object the calculator was built with
+            new = np.array(case["m2c"], dtype=float)
+        elif how == "redraw":
             if dyadic:
                 den = 2.0 ** rs.randint(0, 4)
                 new = rs.randint(-4, 5, size=(n2, 3)).astype(float) / den
@@ -168,9 +188,72 @@ def add_sequence(rs, case, force=False):
         else:
             new = seq[rs.randint(len(seq) - 1)].copy()      # an EARLIER configuration, not the last one
         kinds.append(how)
+        hows.append({"ip_translate": "inplace", "ip_rotate": "inplace", "ip_atom": "inplace_rows",
+                     "construction": "construction"}.get(how, "fresh"))
         seq.append(new)
     case["more"] = [c.tolist() for c in seq[1:]]
+    case["more_how"] = hows
     case["seq_kinds"] = kinds
+    return case
+
+
+ND_KINDS = ["float64", "float32", "int64", "int32"]
+ALL_KINDS = ND_KINDS + ["list", "tuple"]
+
+
+def conv(values, kind):
+    """the VALUES of a coordinate set in the container / dtype `kind` (float64 when they are not representable)"""
+    a = np.array(values, dtype=float).reshape(-1, 3)
+    if kind in ("int64", "int32", "float32"):
+        b = a.astype(kind)
+        if (b.astype(float) == a).all():
+            return b
+        return a
+    if kind == "list":
+        return [[float(x) for x in p] for p in a]
+    if kind == "tuple":
+        return tuple(tuple(float(x) for x in p) for p in a)
+    return a
+
+
+def add_types(rs, case, force=False):
+    """with probability 1/3: the three coordinate arguments are passed as int64 / int32 / float32 / float64 ndarrays, lists
+    of lists or tuples of tuples - whatever the unchanged code accepts: without restraints anything, with restraints the
+    fixed and the evaluated set must be ndarrays (they are indexed with an index array), the construction set may be
+    anything (only its length is used).  Not generated: fixed AND evaluated set both float32 with restraints (numpy then
+    forms the restrained differences in single precision, 4e-8 relative).  Coordinates are rescaled to an extent of 4 and
+    the integer-typed sets rounded, so that the VALUES stored in the case are exactly what is passed."""
+    if not force and rs.randint(3):
+        return case
+    free = not case["restr"]
+    kinds = {"m1": (ALL_KINDS if free else ND_KINDS)[rs.randint(6 if free else 4)],
+             "m2c": ALL_KINDS[rs.randint(6)],
+             "m2e": (ALL_KINDS if free else ND_KINDS)[rs.randint(6 if free else 4)]}
+    if rs.randint(3) == 0:
+        kinds["m1"] = ["int64", "int32"][rs.randint(2)]      # integer lattice for the fixed molecule, as the suite does
+    if not free and kinds["m1"] == "float32" and kinds["m2e"] == "float32":
+        kinds["m2e"] = "float64"
+    ext = max(1e-9, max(float(np.abs(np.array(a, dtype=float)).max()) for a in [case["m1"], case["m2c"]] + seq_of(case)))
+    f = 1.0 if case["stream"] == "dyadic" else 4.0 / ext
+
+    def fix(values, kind):
+        a = np.array(values, dtype=float) * f
+        if kind in ("int64", "int32"):
+            a = np.rint(a)
+        elif kind == "float32":
+            a = a.astype(np.float32).astype(float)
+        return a.tolist()
+    case["m1"] = fix(case["m1"], kinds["m1"])
+    case["m2c"] = fix(case["m2c"], kinds["m2c"])
+    case["m2e"] = fix(case["m2e"], kinds["m2e"])
+    if "more" in case:
+        case["more"] = [fix(c, kinds["m2e"]) for c in case["more"]]
+        how = list(case.get("more_how", []))
+        for t, h in enumerate(how):
+            if h == "construction":
+                case["more"][t] = [list(p) for p in case["m2c"]]
+        case["more_how"] = how
+    case["types"] = kinds
     return case
 
 
@@ -257,21 +340,55 @@ def impl_chi2(case, m1=None, m2c=None, m2e=None, restr=None):
     return ("val", float(val))
 
 
-def impl_seq(case):
-    """ONE Chi2Calculator object evaluated on every configuration of the case, in order:
-    list of outcomes (one per call), or [('errmake',)] when the construction raised."""
+def snapshot(x):
+    if isinstance(x, np.ndarray):
+        return (str(x.dtype), x.shape, x.tobytes())
+    return copy.deepcopy(x)
+
+
+def impl_seq(case, notes=None):
+    """ONE Chi2Calculator object evaluated on every configuration of the case, in order: list of outcomes (one per
+    call), or [('errmake',)] when the construction raised.  The arguments are passed in the containers of case['types'];
+    a later call marked 'inplace' / 'inplace_rows' in case['more_how'] CHANGES THE ARRAY OBJECT OF THE PREVIOUS CALL IN PLACE
+    and passes that same object again; 'construction' passes the very object the calculator was built with.  After every
+    call the caller's three arrays are compared bit for bit with their snapshots (notes receives the differences)."""
     from gaddlemaps._backend import Chi2Calculator
-    m1 = np.array(case["m1"], dtype=float).reshape(-1, 3)
-    m2c = np.array(case["m2c"], dtype=float).reshape(-1, 3)
+    kinds = case.get("types") or {}
+    m1 = conv(case["m1"], kinds.get("m1"))
+    m2c = conv(case["m2c"], kinds.get("m2c"))
     restr = case["restr"]
     arg = [tuple(p) for p in restr] if restr else (None if case.get("none_arg") else [])
+    snap = [snapshot(m1), snapshot(m2c)]
     try:
         calc = Chi2Calculator(m1, m2c, arg)
     except IndexError:
         return [("errmake",)]
+    if notes is not None and (snapshot(m1) != snap[0] or snapshot(m2c) != snap[1]):
+        notes.append("the constructor modified the caller's arrays")
     outs = []
-    for conf in seq_of(case):
-        m2 = np.array(conf, dtype=float).reshape(-1, 3)
+    hows = ["fresh"] + list(case.get("more_how", []))
+    cur = None
+    for t, conf in enumerate(seq_of(case)):
+        how = hows[t] if t < len(hows) else "fresh"
+        new = np.array(conf, dtype=float).reshape(-1, 3)
+        inplace_ok = isinstance(cur, np.ndarray) and cur.dtype == np.float64 and cur.shape == new.shape
+        if how == "construction" and np.array_equal(np.array(m2c, dtype=float).reshape(-1, 3), new) and \
+                (isinstance(m2c, np.ndarray) or not restr):
+            m2 = m2c
+        elif how == "inplace_rows" and inplace_ok:
+            for r in range(len(new)):
+                if not np.array_equal(cur[r], new[r]):
+                    cur[r] = new[r]
+            m2 = cur
+        elif how == "inplace" and inplace_ok:
+            if t % 2:
+                cur[...] = new
+            else:
+                np.copyto(cur, new)
+            m2 = cur
+        else:
+            m2 = conv(conf, kinds.get("m2e"))
+        snap = [snapshot(m1), snapshot(m2c), snapshot(m2)]
         try:
             with np.errstate(all="ignore"):
                 outs.append(("val", float(calc(m2))))
@@ -279,6 +396,11 @@ def impl_seq(case):
             outs.append(("errcall",))
         except ValueError:
             outs.append(("errvalue",))
+        if notes is not None:
+            for name, x, sn in (("fixed", m1, snap[0]), ("construction", m2c, snap[1]), ("evaluated", m2, snap[2])):
+                if snapshot(x) != sn:
+                    notes.append("call %d: the calculator modified the caller's %s array" % (t + 1, name))
+        cur = m2
     return outs
 
 
@@ -362,8 +484,9 @@ def oracle_case(case, rs=None):
         return []          # outside the property's domain
     # the SAME calculator object evaluated on every configuration of the sequence: each value must be the
     # reference value of the configuration passed in, whatever it was evaluated on before
-    outs = impl_seq(case)
-    bad = []
+    notes = []
+    outs = impl_seq(case, notes)
+    bad = list(notes)
     ties = False
     val = None
     for t, (out, conf) in enumerate(zip(outs, seq)):
@@ -468,8 +591,10 @@ def drop(case, kind, idx):
         seq = seq_of(case)
         if len(seq) <= 1:
             return None
+        hows = ["fresh"] + list(case.get("more_how", ["fresh"] * (len(seq) - 1)))
         seq = seq[:idx] + seq[idx + 1:]
-        c["m2e"], c["more"] = seq[0], seq[1:]
+        hows = hows[:idx] + hows[idx + 1:]
+        c["m2e"], c["more"], c["more_how"] = seq[0], seq[1:], hows[1:]
     else:
         if len(case["m2e"]) <= 1:
             return None
@@ -523,18 +648,33 @@ def report(ctx, case, bad):
 
 
 def slim(case):
-    return {k: case[k] for k in ("stream", "geo", "rkind", "m1", "m2c", "restr", "m2e", "more", "seq_kinds", "none_arg",
-                                     "shrunk_from")
+    return {k: case[k] for k in ("stream", "geo", "rkind", "m1", "m2c", "restr", "m2e", "more", "more_how", "types", "seq_kinds",
+                                     "none_arg", "shrunk_from")
             if k in case}
 
 
 # ------------------------------------------------------------------ check entry points
-def _c(m1, m2c, restr, m2e, rkind, more=None):
+def _c(m1, m2c, restr, m2e, rkind, more=None, how=None, types=None):
     c = {"stream": "corpus", "geo": "hand", "rkind": rkind, "m1": m1, "m2c": m2c, "restr": restr, "m2e": m2e,
          "none_arg": False}
     if more:
         c["more"] = more
+    if how:
+        c["more_how"] = how
+    if types:
+        c["types"] = types
     return c
+
+
+# fixed molecule on an integer lattice passed as an INTEGER array (as the package's tests do), float mobile atoms
+_LATTICE = [[0, 0, 0], [2, 0, 0], [2, 2, 0], [0, 2, 1], [4, 1, 3]]
+_L_START = [[0.5, 0.0, 0.0], [2.0, 1.5, 0.0], [3.0, 1.0, 2.5]]
+_L_NEW = [[0.40, 0.30, -0.20], [2.25, 1.75, 0.60], [3.50, 0.75, 2.90]]
+# one coordinate array evaluated, changed in place, evaluated again
+_F3 = [[0.3, -1.2, 0.7], [1.9, 0.4, -0.8], [-1.1, 1.6, 0.2]]
+_FR0 = [[0.1, -0.9, 0.5], [1.5, 0.8, -1.3]]
+_FR1 = [[0.8, -1.6, 2.6], [2.2, 0.1, 0.8]]
+_FR2 = [[0.8, -1.6, 2.6], [-0.7, 1.2, 0.3]]
 
 
 _CONF_A = [[0, 0, 1], [10, 0, 1], [30, 0, 0]]
@@ -569,6 +709,17 @@ CORPUS = [
        _FAR_MOBILE, "partial"),
     _c(_FAR_FIXED, [[4000.5, -2500.5, 3000.5], [4001.5, -2499.5, 3000.0], [4002.0, -2501.0, 3001.0]], [],
        _FAR_MOBILE, "empty"),
+    # integer-dtype fixed array, restrained mobile atoms with non-integer coordinates (partial / duplicated / complete)
+    _c(_LATTICE, _L_START, [(0, 0), (2, 1)], _L_NEW, "partial", types={"m1": "int64"}),
+    _c(_LATTICE, _L_START, [(0, 0), (0, 1), (4, 2)], _L_NEW, "dup_fixed", types={"m1": "int32"}),
+    _c(_LATTICE, _L_START, [(0, 0), (1, 0), (2, 1), (3, 1), (4, 2)], _L_NEW, "complete",
+       types={"m1": "int64", "m2c": "list"}),
+    # the same ndarray evaluated, translated in place, evaluated, one atom moved in place, evaluated (all three paths)
+    _c(_F3, [[0.0, 0.0, 0.0], [1.0, 1.0, 1.0]], [], _FR0, "empty", more=[_FR1, _FR2], how=["inplace", "inplace_rows"]),
+    _c(_F3, [[0.0, 0.0, 0.0], [1.0, 1.0, 1.0]], [(0, 1)], _FR0, "partial", more=[_FR1, _FR2],
+       how=["inplace", "inplace_rows"]),
+    _c(_F3, [[0.0, 0.0, 0.0], [1.0, 1.0, 1.0]], [(0, 1), (1, 0), (2, 1)], _FR0, "complete", more=[_FR1, _FR2],
+       how=["inplace", "inplace_rows"]),
     # one atom on each side
     _c([[0.5, 0.25, 0]], [[0, 0, 0]], [(0, 0)], [[1, 1, 1]], "complete"),
     _c([[0.5, 0.25, 0]], [[0, 0, 0]], [], [[1, 1, 1]], "empty"),
@@ -593,7 +744,7 @@ def dyadic_case(case):
 
 
 def coq_case(case, out, conf=None):
-    exact = "true" if case["stream"] == "dyadic" or (case["stream"] == "corpus" and dyadic_case(case)) else "false"
+    exact = "true" if dyadic_case(case) and case["stream"] in ("dyadic", "corpus") else "false"
     obs = {"val": lambda: "(ObsVal %s)" % fl(out[1]), "errmake": lambda: "ObsErrMake",
            "errcall": lambda: "ObsErrCall", "errvalue": lambda: "ObsErrValue"}[out[0]]()
 
@@ -639,7 +790,8 @@ def correspondence(ctx):
     todo += [gen_error(rs) for _ in range(n_err)]
     cases, meta = [], []
     hist = {"stream": {}, "path": {}, "rkind": {}, "geo": {}, "k": {}, "ties": 0, "n_fixed": {}, "n_mobile": {},
-            "calls_per_calculator": {}, "later_calls_by_path": {}, "revisits": 0, "later_calls_with_changed_assignment": 0}
+            "calls_per_calculator": {}, "later_calls_by_path": {}, "revisits": 0, "later_calls_with_changed_assignment": 0,
+            "argument_types": {}, "calls_on_an_array_changed_in_place": {}, "calls_on_the_construction_object": 0}
 
     def bump(d, k):
         d[k] = d.get(k, 0) + 1
@@ -653,6 +805,17 @@ def correspondence(ctx):
             meta.append(dict(case, call=t + 1))
         n1, n2 = len(case["m1"]), len(case["m2e"])
         bump(hist["calls_per_calculator"], str(len(outs)))
+        kinds = case.get("types")
+        if kinds:
+            bump(hist["argument_types"], "fixed=%s eval=%s" % (kinds.get("m1", "float64"), kinds.get("m2e", "float64")))
+            bump(hist["argument_types"], "construction=%s" % kinds.get("m2c", "float64"))
+        else:
+            bump(hist["argument_types"], "all float64")
+        if case["stream"] != "error" and (not kinds or kinds.get("m2e", "float64") == "float64"):
+            for h in case.get("more_how", []):
+                if h.startswith("inplace"):
+                    bump(hist["calls_on_an_array_changed_in_place"], path_of(case))
+                hist["calls_on_the_construction_object"] += int(h == "construction")
         if case["stream"] != "error":
             for t in range(1, len(seq)):
                 bump(hist["later_calls_by_path"], path_of(case))
